@@ -18,7 +18,10 @@ ToSet(s) == {s[i] : i \in DOMAIN s}
 \* JSON has no sets
 CaseOf(e) == [depreq |-> e.case.depreq, fields |-> e.case.fields,
               vals   |-> [i \in DOMAIN e.case.vals |->
-                           [e.case.vals[i] EXCEPT !.deps = ToSet(@), !.disc = ToSet(@)]]]
+                           [e.case.vals[i] EXCEPT !.deps = ToSet(@), !.disc = ToSet(@)]],
+              ext    |-> [i \in DOMAIN e.case.ext |->
+                           [e.case.ext[i] EXCEPT !.deps = {}, !.disc = {}]],
+              extmode |-> e.case.extmode]
 LoggedErrs(e) == {<<e.errs[i][1], e.errs[i][2]>> : i \in DOMAIN e.errs}
 
 Load(i) == /\ case' = CaseOf(Execs[i]) /\ phase' = "fields" /\ fi' = 1 /\ provided' = {} /\ ferr' = {}
@@ -33,18 +36,20 @@ E == Execs[tid]
 NextExec == IF tid < Len(Execs) THEN Load(tid + 1)
             ELSE /\ tid' = tid + 1 /\ UNCHANGED <<vars, k>> /\ PrintT(<<"ALLDONE", tid>>)
 
-Silent == (DeserField \/ EndFields \/ Gate) /\ UNCHANGED <<tid, k>>
+Silent == (DeserField \/ EndFields \/ Gate \/ (GoesExt /\ Finish)) /\ UNCHANGED <<tid, k>>
+\* the object's own validation is over and no unbound validator is still to come
+AtEnd == pending = <<>> /\ ((phase = "validate" /\ ~GoesExt) \/ phase = "external")
 \* a logged validator call must be the enabled Run step
-MatchRun == /\ phase = "validate" /\ pending # <<>> /\ k <= Len(E.ran)
+MatchRun == /\ phase \in {"validate", "external"} /\ pending # <<>> /\ k <= Len(E.ran)
             /\ Head(pending).name = E.ran[k]
             /\ Run /\ k' = k + 1 /\ UNCHANGED tid
-Stuck == /\ phase = "validate"
+Stuck == /\ phase \in {"validate", "external"}
          \* IF, not \/: TLC splits a disjunction of an action into sub-actions and evaluates each alone
          /\ IF pending # <<>> THEN (IF k > Len(E.ran) THEN TRUE ELSE Head(pending).name # E.ran[k])
-            ELSE k <= Len(E.ran)
+            ELSE AtEnd /\ k <= Len(E.ran)
          /\ PrintT(<<"MISMATCH", E.id, "ran">>)
          /\ NextExec
-EndExec == /\ phase = "validate" /\ pending = <<>> /\ k > Len(E.ran)
+EndExec == /\ AtEnd /\ k > Len(E.ran)
            /\ LET vd == IF E.kind \notin {"ok", "verr"} THEN "escape"
                         ELSE IF (E.kind = "ok") # (errs = {}) THEN "accept"
                         ELSE IF LoggedErrs(E) # errs THEN "errors"
